@@ -83,6 +83,9 @@ def run(ctx):
 
 
 def check_cfg(ctx, fx, cfg):
+    # R10.4 a tick is refused only when the actor is gone (the timers end on the first refused tick): shared with C15
+    from props.c15 import check_forcing_never_refuses
+    check_forcing_never_refuses(ctx, fx, cfg, "R10.4")
     tcs = timers.timer_coroutines(fx)
     ctx.floor("R10.1", "timer coroutines (%s)" % cfg, len(tcs), 4)
     A = nfa.Alphabet(
